@@ -35,16 +35,22 @@ Definition de_u8 := de_int 0 255.
 Definition de_u16 := de_int 0 65535.
 Definition de_bool (v : jval) : option bool := match v with JBool b => Some b | _ => None end.
 
-(** * restricted integers.  shape "try_from:u16": deserialize a u16, then the checked TryFrom;
+(** * Shapes.  How a type obtains Deserialize, as far as the translator can tell from the source:
+    "derive" -- a plain derive: the fields are deserialized and stored, nothing is validated;
+    anything else ("try_from:<T>", "custom" = a hand-written impl, "unknown" = not recognised,
+    "repr") -- modelled as *validating*, which is what the property demands; whether the
+    implementation really validates is then a matter for the correspondence check, which feeds
+    invalid representations of every kind. *)
+
+(** * restricted integers.  validating: deserialize a u16, then the checked TryFrom;
     shape "derive": the transparent newtype derive over the representation (no range check) *)
 Definition de_nt (shape : string) (repr_max : Z) (max : N) (v : jval) : option N :=
-  if String.eqb shape "try_from:u16" then
+  if String.eqb shape "derive" then option_map Z.to_N (de_int 0 repr_max v)
+  else
     match de_u16 v with
     | Some z => if Z.leb z (Z.of_N max) then Some (Z.to_N z) else None
     | None => None
-    end
-  else if String.eqb shape "derive" then option_map Z.to_N (de_int 0 repr_max v)
-  else None.
+    end.
 
 (** * structs with named fields: a map (unknown keys ignored, every field exactly once) or a
     sequence of exactly the right length *)
@@ -245,9 +251,7 @@ Section Types.
         | Some s', Some a', Some b' =>
             let st := Z.to_N s' in
             if String.eqb shape_raw "derive" then Some (st, a', b')
-            else if String.eqb shape_raw "try_from:(u8,U7,U7)" then
-              match extract_type st with Some _ => Some (st, a', b') | None => None end
-            else None
+            else match extract_type st with Some _ => Some (st, a', b') | None => None end
         | _, _, _ => None
         end
     | _ => None
@@ -261,9 +265,7 @@ Section Types.
         match de_channel c, de_cn n, de_u14 x with
         | Some c', Some n', Some x' =>
             if String.eqb shape_cc14 "derive" then Some (mkCC14 c' n' x')
-            else if prefix "try_from:" shape_cc14 then
-              match cc14_new c' n' x' with Ok m => Some m | Panic => None end
-            else None
+            else match cc14_new c' n' x' with Ok m => Some m | Panic => None end
         | _, _, _ => None
         end
     | _ => None
@@ -280,8 +282,7 @@ Section Types.
         | Some c', Some n', Some x', Some r', Some w', Some d' =>
             let m := mkPN c' n' x' r' w' d' in
             if String.eqb shape_pn "derive" then Some m
-            else if prefix "try_from:" shape_pn then (if pn_consistent m then Some m else None)
-            else None
+            else if pn_consistent m then Some m else None
         | _, _, _, _, _, _ => None
         end
     | _ => None
